@@ -26,7 +26,7 @@ def expectedNameExistsBody : List String := ["_, exists := m.visibleNames[name]"
 def expectedResolveVariableNameCollisionsBody : List String := ["for _, v := range m.vars { varLog := log.With().Str(\"variable-name\", v.Name).Logger() newName := m.SuggestName(v.Name) if newName != v.Name { varLog.Debug().Str(\"new-name\", newName).Msg(\"variable was found to conflict with previously allocated name. Giving new name.\") } v.Name = newName m.AddName(v.Name) }"]
 
 /-- `addImport` (template/registry.go) -/
-def expectedRegistryAddImportBody : List String := ["path := pkg.Path()", "if path == r.dstPkgPath && r.inPackage { log.Debug().Msg(\"path equals dst-pkg-path, not adding import\") return nil } else { log.Debug().Msg(\"path does not equal dst-pkg-path, adding import\") }", "if imprt, ok := r.imports[path]; ok { return imprt }", "imprt := Package{pkg: pkg}", "originalQualifier := imprt.Qualifier()", "var aliasSuggestion string = imprt.Qualifier()", "for i := 0; ; i++ { if _, conflict := r.importQualifiers[aliasSuggestion]; conflict { aliasSuggestion = fmt.Sprintf(\"%s%d\", imprt.Qualifier(), i) continue } if originalQualifier != aliasSuggestion { imprt.Alias = aliasSuggestion } break }", "r.imports[path] = &imprt", "r.importQualifiers[imprt.Qualifier()] = &imprt", "return &imprt"]
+def expectedRegistryAddImportBody : List String := ["path := pkg.Path()", "if path == r.dstPkgPath && (r.inPackage || (r.dstPkgName != \"\" && pkg.Name() == r.dstPkgName)) { log.Debug().Msg(\"path equals dst-pkg-path, not adding import\") return nil } else { log.Debug().Msg(\"path does not equal dst-pkg-path, adding import\") }", "if imprt, ok := r.imports[path]; ok { return imprt }", "imprt := Package{pkg: pkg}", "originalQualifier := imprt.Qualifier()", "var aliasSuggestion string = imprt.Qualifier()", "for i := 0; ; i++ { if _, conflict := r.importQualifiers[aliasSuggestion]; conflict { aliasSuggestion = fmt.Sprintf(\"%s%d\", imprt.Qualifier(), i) continue } if originalQualifier != aliasSuggestion { imprt.Alias = aliasSuggestion } break }", "r.imports[path] = &imprt", "r.importQualifiers[imprt.Qualifier()] = &imprt", "return &imprt"]
 
 /-- `AddImport` (template/registry.go) -/
 def expectedRegistryAddImportExportedBody : List String := ["return r.addImport(context.Background(), fakeTypesPackage{ name: pkgName, path: pkgPath, })"]
